@@ -24,7 +24,7 @@ from odl.util import normalize as ON
 from mc.ref import partition_ref as R
 
 PROPERTY = 'C14'
-BUDGET = {'quick': 600, 'thorough': 3600}
+BUDGET = {'quick': 1500, 'thorough': 3600}
 
 PRODUCT_CAP = 300     # larger point products are visited as a star (axes are independent)
 RTOL = 1e-12          # tolerance (times max(1, magnitude)) where the arithmetic is not exact
